@@ -437,10 +437,16 @@ func c19Session(r *core.Rng) ([]ast.Node, string) {
 			ast.Binary{Op: "-", L: nm("q"), R: nm("p")},
 			ast.Unary{Op: "#", X: ast.Binary{Op: "*", L: nm("p"), R: nm("q")}},
 			ast.Binary{Op: "&", L: il(1), R: nm("p")},
-		}[r.Intn(5)]
+			// increments and decrements of a variable in place
+			ast.Assign{Name: "p", Value: ast.Binary{Op: "+", L: nm("p"), R: il(1)}},
+			ast.Block{Stmts: []ast.Node{ast.Assign{Name: "q", Value: ast.Binary{Op: "-", L: nm("q"), R: il(1)}}, nm("q")}},
+		}[r.Intn(7)]
 		ss := []ast.Node{ast.Assign{Name: "zh", Value: ast.FuncLit{Params: []string{"p", "q"}, Body: fault}}}
 		a, b := c19Hostile(r), c19Hostile(r)
-		switch r.Intn(4) {
+		switch r.Intn(5) {
+		case 4: // a global incremented in place
+			op := []string{"+", "-"}[r.Intn(2)]
+			return []ast.Node{ast.Assign{Name: "zv", Value: a}, ast.Assign{Name: "zv", Value: ast.Binary{Op: op, L: nm("zv"), R: il(1)}}}, "hostile-increment-global"
 		case 0:
 			return append(ss, icall("zh", a, b)), "hostile-values"
 		case 1:
